@@ -54,6 +54,7 @@ type Obligation struct {
 	Watch  [][2]string // (label, term) pairs evaluated in the model of a refutation
 	IsCover bool       // cover query: expected SAT
 	Canary  bool       // must be refuted
+	ShortTimeout int   // > 0: solver timeout for obligations whose verdict cannot change the outcome of the run
 	Result *SolveResult
 }
 
@@ -81,6 +82,11 @@ type condAxiom struct {
 
 var gfRe = regexp.MustCompile(`gf_[A-Za-z0-9_]+`)
 var strFnRe = regexp.MustCompile(`str_(cat|len|at|sub|lt)|big_str|int_str`)
+
+// AddCondAxiomSyms registers an axiom that is added to a query when the query mentions one of syms (always, if syms is empty).
+func (vc *VC) AddCondAxiomSyms(term string, syms []string, note string) {
+	vc.condAxioms = append(vc.condAxioms, condAxiom{syms: syms, text: "(assert " + term + ")", note: note})
+}
 
 // AddCondAxiom registers an axiom that is added to a query only when the query mentions one of its spec functions.
 func (vc *VC) AddCondAxiom(term, note string) {
@@ -187,6 +193,7 @@ func (vc *VC) Query(prelude string, o *Obligation) string {
 			b.WriteByte('\n')
 		}
 	}
+	b.WriteString(bs) // declarations first: conditional axioms may mention lazily declared heap symbols
 	for _, ca := range vc.condAxioms {
 		use := len(ca.syms) == 0
 		for _, sy := range ca.syms {
@@ -201,7 +208,7 @@ func (vc *VC) Query(prelude string, o *Obligation) string {
 			vc.trusted[ca.note] = true
 		}
 	}
-	b.WriteString(bs)
+
 	if o.IsCover {
 		fmt.Fprintf(&b, "(assert %s)\n(check-sat)\n", o.Goal)
 	} else {
